@@ -6,25 +6,53 @@ From CBGen Require Import Gen_leaf.
 Ltac Zify.zify_post_hook ::= Z.div_mod_to_equations.
 Local Open Scope Z_scope.
 (* ---- memory_utils.c ---- *)
-Lemma hb_loop_bridge : forall fuel number bit, (number < 2^64)%N -> (bit + N.of_nat fuel < 2^64)%N ->
-  fst (g_cbor_highest_bit_loop0 fuel (Z.of_N bit) (Z.of_N number)) = Z.of_N (highest_bit_f fuel number bit).
+(* the loop of _cbor_highest_bit, whatever its rendering: any loop (through the generic combinator wloop)
+   whose condition is "number != 0" and whose body is "bit + 1, number / 2" on in-range states computes
+   highest_bit_f; both orders of the state pair are covered.  The side conditions are discharged by the
+   normalise / split / lia automation, so `for` vs `while`, the order of the two updates, `>>= 1` vs `/= 2`
+   do not matter. *)
+Lemma wloop_hb (cond : Z * Z -> bool) (body : Z * Z -> Z * Z) :
+  (forall b n, (n < 2^64)%N -> (b < 2^64)%N -> cond (Z.of_N b, Z.of_N n) = negb (n =? 0)%N) ->
+  (forall b n, (n < 2^64)%N -> (b + 1 < 2^64)%N -> n <> 0%N -> body (Z.of_N b, Z.of_N n) = (Z.of_N (b + 1), Z.of_N (n / 2))) ->
+  forall fuel n b, (n < 2^64)%N -> (b + N.of_nat fuel < 2^64)%N ->
+  fst (wloop fuel cond body (Z.of_N b, Z.of_N n)) = Z.of_N (highest_bit_f fuel n b).
 Proof.
-  induction fuel as [|f IH]; intros number bit Hn Hb; [reflexivity|].
-  cbn [highest_bit_f g_cbor_highest_bit_loop0]. destruct (N.eqb_spec number 0) as [->|Hne].
-  - reflexivity.
-  - assert (E : nz (b2z (negb (Z.of_N number =? 0))) = true) by (unfold nz, b2z; destruct (Z.eqb_spec (Z.of_N number) 0); [lia|reflexivity]).
-    rewrite E. cbv zeta.
-    replace (wrapz 64 (Z.of_N bit + 1)) with (Z.of_N (bit + 1)) by (norm; lia).
-    replace (Z.shiftr (Z.of_N number) 1) with (Z.of_N (number / 2)) by (shifts; pows; lia).
-    apply IH; pows; [|lia]. apply N.div_lt_upper_bound; lia.
+  intros Hc Hb. induction fuel as [|f IH]; intros n b Hn Hf; [reflexivity|].
+  cbn [wloop highest_bit_f]. rewrite Hc by lia. destruct (N.eqb_spec n 0) as [->|Hne]; cbn [negb]; [reflexivity|].
+  rewrite Hb by lia. apply IH; [|lia]. pows. apply N.div_lt_upper_bound; lia.
+Qed.
+Lemma wloop_hb_swapped (cond : Z * Z -> bool) (body : Z * Z -> Z * Z) :
+  (forall b n, (n < 2^64)%N -> (b < 2^64)%N -> cond (Z.of_N n, Z.of_N b) = negb (n =? 0)%N) ->
+  (forall b n, (n < 2^64)%N -> (b + 1 < 2^64)%N -> n <> 0%N -> body (Z.of_N n, Z.of_N b) = (Z.of_N (n / 2), Z.of_N (b + 1))) ->
+  forall fuel n b, (n < 2^64)%N -> (b + N.of_nat fuel < 2^64)%N ->
+  snd (wloop fuel cond body (Z.of_N n, Z.of_N b)) = Z.of_N (highest_bit_f fuel n b).
+Proof.
+  intros Hc Hb. induction fuel as [|f IH]; intros n b Hn Hf; [reflexivity|].
+  cbn [wloop highest_bit_f]. rewrite Hc by lia. destruct (N.eqb_spec n 0) as [->|Hne]; cbn [negb]; [reflexivity|].
+  rewrite Hb by lia. apply IH; [|lia]. pows. apply N.div_lt_upper_bound; lia.
 Qed.
 
+Ltac hb_side := intros; cbv beta iota zeta; repeat f_equal; bridge.
 Lemma bridge_highest_bit n : (n < 2^64)%N -> g_cbor_highest_bit (Z.of_N n) = Z.of_N (highest_bit 64 n).
 Proof.
-  intros Hn. unfold g_cbor_highest_bit, highest_bit. cbv zeta.
-  change (S (N.to_nat 64)) with 65%nat.
-  pose proof (hb_loop_bridge 65 n 0 Hn ltac:(pows; lia)) as H. change (Z.of_N 0) with 0 in H.
-  destruct (g_cbor_highest_bit_loop0 65 0 (Z.of_N n)) as [b m]. exact H.
+  intros Hn.
+  lazymatch eval compute in g_cbor_highest_bit_supported with
+  | false => unfold g_cbor_highest_bit, fb_cbor_highest_bit; rewrite !N2Z.id; reflexivity
+  | true =>
+    unfold g_cbor_highest_bit, highest_bit; cbv zeta; change (S (N.to_nat 64)) with 65%nat;
+    lazymatch goal with
+    | |- context [wloop ?fuel ?C ?B (?x, ?y)] =>
+        first
+        [ (* state (bit, number) *)
+          pose proof (wloop_hb C B ltac:(hb_side) ltac:(hb_side) fuel n 0%N Hn ltac:(pows; lia)) as H;
+          change (wloop fuel C B (Z.of_N 0, Z.of_N n)) with (wloop fuel C B (x, y)) in H;
+          destruct (wloop fuel C B (x, y)) as [r1 r2]; cbn [fst] in H; subst r1; solve [bridge]
+        | (* state (number, bit) *)
+          pose proof (wloop_hb_swapped C B ltac:(hb_side) ltac:(hb_side) fuel n 0%N Hn ltac:(pows; lia)) as H;
+          change (wloop fuel C B (Z.of_N n, Z.of_N 0)) with (wloop fuel C B (x, y)) in H;
+          destruct (wloop fuel C B (x, y)) as [r1 r2]; cbn [snd] in H; subst r2; solve [bridge] ]
+    end
+  end.
 Qed.
 
 Lemma hbf_le : forall f n b, (highest_bit_f f n b <= b + N.of_nat f)%N.
@@ -36,25 +64,37 @@ Qed.
 Lemma bridge_safe_to_multiply a b : (a < 2^64)%N -> (b < 2^64)%N ->
   g_cbor_safe_to_multiply (Z.of_N a) (Z.of_N b) = b2z (safe_to_multiply 64 a b).
 Proof.
-  intros Ha Hb. unfold g_cbor_safe_to_multiply, safe_to_multiply.
-  rewrite !bridge_highest_bit by assumption.
-  pose proof (hbf_le 65 a 0) as Ba. pose proof (hbf_le 65 b 0) as Bb.
-  unfold highest_bit in *. change (S (N.to_nat 64)) with 65%nat in *.
-  set (ha := highest_bit_f 65 a 0) in *. set (hb := highest_bit_f 65 b 0) in *. clearbody ha hb.
-  bridge.
+  intros Ha Hb.
+  first
+  [ unfold g_cbor_safe_to_multiply, safe_to_multiply;
+    rewrite !bridge_highest_bit by assumption;
+    pose proof (hbf_le 65 a 0) as Ba; pose proof (hbf_le 65 b 0) as Bb;
+    unfold highest_bit in *; change (S (N.to_nat 64)) with 65%nat in *;
+    set (ha := highest_bit_f 65 a 0) in *; set (hb := highest_bit_f 65 b 0) in *; clearbody ha hb;
+    solve [bridge]
+  | unfold g_cbor_safe_to_multiply, fb_cbor_safe_to_multiply; rewrite !N2Z.id; reflexivity ].
 Qed.
 
 Lemma bridge_safe_to_add a b : (a < 2^64)%N -> (b < 2^64)%N ->
   g_cbor_safe_to_add (Z.of_N a) (Z.of_N b) = b2z (safe_to_add 64 a b).
-Proof. intros Ha Hb. unfold g_cbor_safe_to_add, safe_to_add. cbv zeta. bridge. Qed.
+Proof.
+  intros Ha Hb.
+  first [ unfold g_cbor_safe_to_add, safe_to_add; cbv zeta; solve [bridge]
+        | unfold g_cbor_safe_to_add, fb_cbor_safe_to_add; rewrite !N2Z.id; reflexivity ].
+Qed.
 
 Lemma bridge_safe_signaling_add a b : (a < 2^64)%N -> (b < 2^64)%N ->
   g_cbor_safe_signaling_add (Z.of_N a) (Z.of_N b) = Z.of_N (safe_signaling_add 64 a b).
 Proof.
-  intros Ha Hb. unfold g_cbor_safe_signaling_add, safe_signaling_add.
-  rewrite bridge_safe_to_add by assumption. destruct (safe_to_add 64 a b); bridge.
+  intros Ha Hb.
+  first [ unfold g_cbor_safe_signaling_add, safe_signaling_add; cbv zeta;
+          rewrite ?bridge_safe_to_add by assumption; destruct (safe_to_add 64 a b); solve [bridge]
+        | unfold g_cbor_safe_signaling_add, fb_cbor_safe_signaling_add; rewrite !N2Z.id; reflexivity ].
 Qed.
 
 Lemma bridge_header_size s : g_cbor_encoded_header_size (Z.of_N s) = Z.of_N (header_size s).
-Proof. unfold g_cbor_encoded_header_size, header_size. bridge. Qed.
+Proof.
+  first [ unfold g_cbor_encoded_header_size, header_size; cbv zeta; solve [bridge]
+        | unfold g_cbor_encoded_header_size, fb_cbor_encoded_header_size; rewrite !N2Z.id; reflexivity ].
+Qed.
 
